@@ -1,13 +1,15 @@
 #!/bin/bash
 # re-check every kept seed against the *current* /repo HEAD: patch applies, demo exits 0 pristine and 1 patched
+# (--baseline: also the pinned suite still passes with the patch)
 cd /verif
 for d in seeded/*/; do
   name=$(basename $d); wt=/tmp/rv-$name-$$
   git -C /repo worktree add -q "$wt" HEAD || continue
-  ( cd $d; PYTHONPATH="$wt" timeout 120 /venv/bin/python demo.py >/dev/null 2>&1; a=$?
+  ( arg="${1:-}"; cd $d; PYTHONPATH="$wt" timeout 120 /venv/bin/python demo.py >/dev/null 2>&1; a=$?
     if git -C "$wt" apply "$PWD/patch.diff" 2>/dev/null; then
       PYTHONPATH="$wt" timeout 120 /venv/bin/python demo.py >/dev/null 2>&1; c=$?
-      echo "$name pristine=$a patched=$c $([ $a -eq 0 ] && [ $c -eq 1 ] && echo VALID || echo INVALID)"
+      b=0; if [ "$arg" = "--baseline" ]; then python3 /verif/tools/baseline.py "$wt" >/dev/null 2>&1; b=$?; fi
+      echo "$name pristine=$a patched=$c baseline=$b $([ $a -eq 0 ] && [ $c -eq 1 ] && [ $b -eq 0 ] && echo VALID || echo INVALID)"
     else echo "$name patch-does-not-apply INVALID"; fi )
   git -C /repo worktree remove --force "$wt"
 done
